@@ -1975,11 +1975,7 @@ Definition rcellof (ls : list rleaf) (c : dbfield) : cell :=
   | Some l => match ser_field (rl_ty l) (rl_val l) (snd c) with Some cl => cl | None => None end
   | None => None
   end.
-Definition col_ok (ls : list rleaf) (c : dbfield) : bool :=
-  match lfind (fst c) ls with
-  | Some l => match ser_field (rl_ty l) (rl_val l) (snd c) with Some _ => true | None => false end
-  | None => false
-  end.
+Notation col_ok := rcol_ok.
 
 Lemma lfind_lv n ls seen :
   lfind_p n (lv ls seen) = option_map (fun l => (rl_name l, rl_ty l, rl_val l, mem (rl_name l) seen)) (lfind n ls).
@@ -2007,7 +2003,7 @@ Proof.
   intros HN. induction cols as [|[n ty] cols IH]; intros p out seen W L (vis & sub & rem & ->).
   - cbn [forallb byname_loop map]. exists (PFlat vis sub rem). rewrite !app_nil_r.
     split; [reflexivity|]. split; [assumption|]. split; [assumption|]. now exists vis, sub, rem.
-  - cbn [forallb byname_loop]. unfold col_ok at 1. cbn [fst snd].
+  - cbn [forallb byname_loop]. unfold rcol_ok at 1. cbn [fst snd].
     pose proof (sf_correct (PFlat vis sub rem) n ty W) as S. rewrite L, lv_names in S. specialize (S HN).
     cbn [sf_spec] in S. cbn [pleaves] in L. rewrite L, lfind_lv in S.
     destruct (lfind n ls) as [l|] eqn:F; cbn [option_map] in S.
@@ -2063,7 +2059,7 @@ Proof.
     apply andb_true_iff in K as [K1 K2]. rewrite (IH K2).
     destruct (lfind (fst c) ls) as [l|] eqn:F; [|discriminate K1].
     assert (Ec : col_ok ls c = match ser_field (rl_ty l) (rl_val l) (snd c) with Some _ => true | None => false end)
-      by (unfold col_ok; now rewrite F).
+      by (unfold rcol_ok; now rewrite F).
     rewrite Ec. destruct (ser_field (rl_ty l) (rl_val l) (snd c)); reflexivity. }
   rewrite E3. reflexivity.
 Qed.
@@ -2081,7 +2077,7 @@ Proof.
   assert (Known : forallb (col_ok ls) cols = true ->
                   forallb (fun c : dbfield => match lfind (fst c) ls with Some _ => true | None => false end) cols = true).
   { clear. induction cols as [|c cols IH]; [reflexivity|]. cbn [forallb]. intros H.
-    apply andb_true_iff in H as [H1 H2]. rewrite (IH H2). unfold col_ok in H1.
+    apply andb_true_iff in H as [H1 H2]. rewrite (IH H2). unfold rcol_ok in H1.
     destruct (lfind (fst c) ls); [reflexivity|discriminate]. }
   destruct (forallb (col_ok ls) cols) eqn:OK.
   - destruct B as (p' & -> & Wp & Lp & (vis & sub & rem & ->)). cbn [app] in *.
@@ -2130,7 +2126,7 @@ Proof.
   assert (E2 : forallb (fun l => mem (rl_name l) (map fst cols)) ls = true).
   { apply forallb_forall. intros l Hl. apply mem_In. eapply Permutation_in; [apply Permutation_sym; exact P|now apply in_map]. }
   assert (E3 : forallb (col_ok ls) cols = true).
-  { apply forallb_forall. intros c Hc. destruct (Bound c Hc) as [l F]. unfold col_ok. rewrite F.
+  { apply forallb_forall. intros c Hc. destruct (Bound c Hc) as [l F]. unfold rcol_ok. rewrite F.
     unfold ser_field. rewrite (Acc c l Hc F). now destruct (rl_val l). }
   rewrite E1, E2, E3. cbn [negb]. f_equal. apply map_ext_in. intros c Hc.
   destruct (Bound c Hc) as [l F]. unfold rcellof, rvalue_of. rewrite F.
@@ -2195,7 +2191,7 @@ Proof.
     cbn [map combine db_cell forallb] in *. apply andb_true_iff in OK as [O1 O2].
     unfold mem in Pres. cbn [map fst existsb] in Pres.
     destruct (String.eqb m (rl_name f)) eqn:E.
-    - apply String.eqb_eq in E. subst m. f_equal. unfold rcellof, col_ok in *. cbn [fst snd] in *. rewrite Fn in *.
+    - apply String.eqb_eq in E. subst m. f_equal. unfold rcellof, rcol_ok in *. cbn [fst snd] in *. rewrite Fn in *.
       destruct (ser_field (rl_ty f) (rl_val f) t) as [cl|] eqn:SF; [|discriminate]. now apply ser_field_some in SF.
     - rewrite String.eqb_sym, E in Pres. cbn [orb] in Pres. now apply IH. }
   rewrite X. apply rdeser_back. rewrite forallb_forall in Hv. now apply Hv.
@@ -2415,4 +2411,186 @@ Proof.
   - destruct (names_prefix (map rl_name nls) cols) as [[p [|x r]]|] eqn:N; try discriminate. intros H.
     destruct (names_prefix_spec _ _ _ _ N) as [E1 E2]. rewrite app_nil_r in E1. subst p. tauto.
   - intros [E Acc]. rewrite <- E. rewrite <- (app_nil_r cols) at 2. rewrite names_prefix_complete. exact Acc.
+Qed.
+(* ------------------------------------------------------------ the known finding, and the theorem outside it *)
+
+Theorem ser_row_by_name_doc' d cols : nodupb (map rl_name (rd_leaves d)) = true ->
+  has_empty_flatten d = false ->
+  outcome_of (gen_ser_row_by_name d cols) = doc_ser_row_by_name d cols /\
+  gen_ser_row_by_name d cols <> Err EPanic.
+Proof.
+  intros H1 H2. apply ser_row_by_name_doc. unfold rdesc_wf. rewrite H1.
+  unfold has_empty_flatten in H2. apply negb_false_iff in H2. now rewrite H2.
+Qed.
+
+Definition empty_flatten_witness : rdesc :=
+  {| rd_ordered := false; rd_snc := false;
+     rd_fields := [ RFlat false false [];
+                    RFlat false false [ RLeaf {| rl_ident := "c"; rl_rename := None; rl_skip := false;
+                                                 rl_dwn := false; rl_ty := ROptInt; rl_val := None |} ] ] |}.
+
+Theorem ser_row_empty_flatten_refuted : exists d cols,
+  nodupb (map rl_name (rd_leaves d)) = true /\ known_empty_flatten d cols = true /\
+  gen_ser_row_by_name d cols = Ok [] /\ doc_ser_row_by_name d cols = Reject.
+Proof. exists empty_flatten_witness, []. repeat split; vm_compute; reflexivity. Qed.
+
+(* ------------------------------------------------------------ enforce_order: deserialize = documented values *)
+
+Definition vdoc_val (its : list (dbfield * cell)) (f : vfield) : option cell := doc_field_value f its.
+
+Lemma dvo_plain fs : forallb (fun f => vf_skip f || negb (vf_am f)) fs = true -> vnodup fs ->
+  forall its, map (fun it => fst (fst it)) (firstn (List.length (nonskipped fs)) its) = map vf_name (nonskipped fs) ->
+  outcome_of (dvo_loop false fs its) =
+    match all_some (map (vdoc_val its) fs) with Some vs => Accept vs | None => Reject end /\
+  dvo_loop false fs its <> Err EPanic.
+Proof.
+  unfold nonskipped. induction fs as [|f fs IH]; intros Ham Hnd its Hn; [split; [reflexivity|discriminate]|].
+  cbn [forallb] in Ham. apply andb_true_iff in Ham as [Hf Ham].
+  cbn [dvo_loop map all_some]. unfold vdoc_val at 1, doc_field_value.
+  cbn [filter] in Hn. destruct (vf_skip f) eqn:Sf; cbn [negb] in Hn.
+  - destruct (IH Ham (vnodup_tail _ _ Hnd) its Hn) as [I1 I2]. split.
+    + destruct (dvo_loop false fs its), (all_some (map (vdoc_val its) fs)); cbn [outcome_of] in *; congruence.
+    + destruct (dvo_loop false fs its); [discriminate|]. congruence.
+  - cbn [List.length firstn map] in Hn. destruct its as [|[[n ty] v] its]; [discriminate|].
+    cbn [firstn map fst] in Hn. injection Hn as Hn0 Hn. subst n. cbn [orb]. rewrite String.eqb_refl.
+    cbn [db_cell]. rewrite String.eqb_refl.
+    destruct (deser_with_default f v) as [x|]; [|split; [reflexivity|discriminate]].
+    destruct (IH Ham (vnodup_tail _ _ Hnd) its Hn) as [I1 I2].
+    assert (E : map (vdoc_val (((vf_name f, ty), v) :: its)) fs = map (vdoc_val its) fs).
+    { apply map_ext_in. intros g Hg. unfold vdoc_val, doc_field_value. destruct (vf_skip g) eqn:Sg; [reflexivity|].
+      cbn [db_cell]. destruct (String.eqb (vf_name f) (vf_name g)) eqn:E; [|reflexivity].
+      exfalso. assert (B : vbound (vf_name g) f = true) by (unfold vbound; now rewrite Sf, E).
+      pose proof (vnodup_head_unique f fs _ Hnd B g Hg) as X. unfold vbound in X.
+      rewrite Sg, String.eqb_refl in X. discriminate. }
+    rewrite E. split.
+    + destruct (dvo_loop false fs its), (all_some (map (vdoc_val its) fs)); cbn [outcome_of] in *; congruence.
+    + destruct (dvo_loop false fs its); [discriminate|]. congruence.
+Qed.
+
+Theorem deser_value_ordered_doc d db cells : vordered_plain d = true -> vnodup (vd_fields d) ->
+  doc_typeck_value_ordered d db = true ->
+  outcome_of (gen_deser_value_ordered d db cells) =
+    match all_some (map (fun f => doc_field_value f (udt_items db cells)) (vd_fields d)) with
+    | Some vs => Accept vs
+    | None => Reject
+    end /\
+  gen_deser_value_ordered d db cells <> Err EPanic.
+Proof.
+  unfold vordered_plain, gen_deser_value_ordered. intros HP Hnd T.
+  apply andb_true_iff in HP as [Hs Ha]. apply negb_true_iff in Hs. rewrite Hs.
+  rewrite doc_typeck_value_ordered_eq in T.
+  destruct (names_prefix (map vf_name (nonskipped (vd_fields d))) db) as [[p rest]|] eqn:N; [|discriminate].
+  destruct (names_prefix_spec _ _ _ _ N) as [E1 E2].
+  apply (dvo_plain _ Ha Hnd).
+  assert (Hp : List.length (nonskipped (vd_fields d)) = List.length p).
+  { rewrite <- (map_length vf_name (nonskipped (vd_fields d))), <- E2. apply map_length. }
+  rewrite Hp, <- E2.
+  transitivity (map fst (map fst (firstn (List.length p) (udt_items db cells)))); [now rewrite map_map|].
+  rewrite <- firstn_map, udt_items_fst, E1, firstn_app, Nat.sub_diag, firstn_all. cbn [firstn]. now rewrite app_nil_r.
+Qed.
+
+(* rows *)
+Lemma dro_plain ls : rnodup ls -> forall fidx its,
+  map (fun it => fst (fst it)) (firstn (List.length (filter (fun f => negb (rl_skip f)) ls)) its)
+    = map rl_name (filter (fun f => negb (rl_skip f)) ls) ->
+  outcome_of (dro_loop false fidx ls its) =
+    match all_some (map (fun f => doc_row_field_value f its) ls) with Some vs => Accept vs | None => Reject end /\
+  dro_loop false fidx ls its <> Err EPanic.
+Proof.
+  unfold rnodup. induction ls as [|f ls IH]; intros Hnd fidx its Hn; [split; [reflexivity|discriminate]|].
+  cbn [dro_loop map all_some]. unfold doc_row_field_value at 1.
+  cbn [filter] in Hn, Hnd. destruct (rl_skip f) eqn:Sf; cbn [negb] in Hn, Hnd.
+  - destruct (IH Hnd (S fidx) its Hn) as [I1 I2]. split.
+    + destruct (dro_loop false (S fidx) ls its), (all_some (map (fun f => doc_row_field_value f its) ls)); cbn [outcome_of] in *; congruence.
+    + destruct (dro_loop false (S fidx) ls its); [discriminate|]. congruence.
+  - cbn [List.length firstn map] in Hn, Hnd. destruct its as [|[[n ty] v] its]; [discriminate|].
+    cbn [firstn map fst] in Hn. injection Hn as Hn0 Hn. subst n. cbn [negb andb]. rewrite String.eqb_refl. cbn [negb].
+    cbn [db_cell]. rewrite String.eqb_refl. inversion Hnd as [|? ? Hnot Hnd']; subst.
+    destruct (rdeser_with_default f v) as [x|]; [|split; [reflexivity|discriminate]].
+    destruct (IH Hnd' (S fidx) its Hn) as [I1 I2].
+    assert (E : map (fun g => doc_row_field_value g (((rl_name f, ty), v) :: its)) ls
+                = map (fun g => doc_row_field_value g its) ls).
+    { apply map_ext_in. intros g Hg. unfold doc_row_field_value. destruct (rl_skip g) eqn:Sg; [reflexivity|].
+      cbn [db_cell]. destruct (String.eqb (rl_name f) (rl_name g)) eqn:E; [|reflexivity].
+      exfalso. apply String.eqb_eq in E. apply Hnot. rewrite E. apply in_map. apply filter_In. now rewrite Sg. }
+    rewrite E. split.
+    + destruct (dro_loop false (S fidx) ls its), (all_some (map (fun f => doc_row_field_value f its) ls)); cbn [outcome_of] in *; congruence.
+    + destruct (dro_loop false (S fidx) ls its); [discriminate|]. congruence.
+Qed.
+
+Theorem deser_row_ordered_doc ls cols cells : rnodup ls -> List.length cells = List.length cols ->
+  doc_typeck_row_ordered ls cols = true ->
+  outcome_of (gen_deser_row_ordered false ls cols cells) =
+    match all_some (map (fun f => doc_row_field_value f (combine cols cells)) ls) with
+    | Some vs => Accept vs
+    | None => Reject
+    end /\
+  gen_deser_row_ordered false ls cols cells <> Err EPanic.
+Proof.
+  unfold gen_deser_row_ordered, doc_typeck_row_ordered. cbv zeta. intros Hnd Hlen T.
+  set (nls := filter (fun f => negb (rl_skip f)) ls) in *.
+  destruct (names_prefix (map rl_name nls) cols) as [[p [|x r]]|] eqn:N; try discriminate.
+  destruct (names_prefix_spec _ _ _ _ N) as [E1 E2]. rewrite app_nil_r in E1. subst p.
+  apply (dro_plain ls Hnd). fold nls.
+  assert (Hp : List.length nls = List.length cols).
+  { rewrite <- (map_length rl_name nls), <- E2. apply map_length. }
+  assert (Ec : map fst (combine cols cells) = cols).
+  { clear -Hlen. revert cells Hlen. induction cols as [|c cols IH]; intros [|v cells] H; simpl in *; try congruence.
+    f_equal. apply IH. congruence. }
+  rewrite Hp, <- E2.
+  transitivity (map fst (map fst (firstn (List.length cols) (combine cols cells)))); [now rewrite map_map|].
+  now rewrite <- firstn_map, Ec, firstn_all.
+Qed.
+(* ------------------------------------------------------------ enforce_order with allow_missing: soundness *)
+
+(* [used] is a subsequence of [fs] *)
+Inductive subseq {A} : list A -> list A -> Prop :=
+| subseq_nil : subseq [] []
+| subseq_take x l m : subseq l m -> subseq (x :: l) (x :: m)
+| subseq_skip x l m : subseq l m -> subseq l (x :: m).
+
+(* whatever the ordered serializer accepts (names checked) is: the values of a subsequence of the
+   struct's fields that contains every field not marked allow_missing, matched one to one and in
+   order against a prefix of the DB fields *)
+Theorem ser_value_ordered_sound fs : forall db cs rest, svo' false fs db = Ok (cs, rest) ->
+  exists used p, subseq used fs /\ (forall f, In f fs -> ~ In f used -> vf_am f = true) /\
+                 db = p ++ rest /\ map fst p = map vf_name used /\ cs = map vf_val used.
+Proof.
+  induction fs as [|f fs IH]; intros db cs rest H; cbn [svo'] in H.
+  - injection H as <- <-. exists [], []. repeat split; try constructor. intros f [].
+  - destruct db as [|[n ty] db].
+    + destruct (vf_am f) eqn:Am; cbn [negb] in H; [|discriminate].
+      destruct (IH _ _ _ H) as (used & p & S & M & E & N & C).
+      exists used, p. repeat split; try assumption; [now constructor|].
+      intros g [<-|Hg] Hn; [assumption|now apply M].
+    + cbn [orb] in H. destruct (String.eqb n (vf_name f)) eqn:En.
+      * destruct (ser_field (vf_ty f) (vf_val f) ty) as [cl|] eqn:SF; [|discriminate].
+        destruct (svo' false fs db) as [[cs' r']|] eqn:R; [|discriminate]. injection H as <- <-.
+        destruct (IH _ _ _ R) as (used & p & S & M & E & N & C).
+        apply ser_field_some in SF. apply String.eqb_eq in En. subst cl n.
+        exists (f :: used), ((vf_name f, ty) :: p). repeat split.
+        -- now constructor.
+        -- intros g [<-|Hg] Hn; [exfalso; apply Hn; now left|]. apply M; [assumption|]. intros X. apply Hn. now right.
+        -- cbn [app]. now rewrite E.
+        -- cbn [map fst]. now rewrite N.
+        -- cbn [map]. now rewrite C.
+      * destruct (vf_am f) eqn:Am; cbn [negb] in H; [|discriminate].
+        destruct (IH _ _ _ H) as (used & p & S & M & E & N & C).
+        exists used, p. repeat split; try assumption; [now constructor|].
+        intros g [<-|Hg] Hn; [assumption|now apply M].
+Qed.
+
+Theorem ser_value_ordered_am_sound d db cells : vd_snc d = false ->
+  gen_ser_value_ordered d db = Ok cells ->
+  exists used p rest, subseq used (nonskipped (vd_fields d)) /\
+    (forall f, In f (nonskipped (vd_fields d)) -> ~ In f used -> vf_am f = true) /\
+    db = p ++ rest /\ map fst p = map vf_name used /\ cells = map vf_val used /\
+    (vd_forbid d = true -> rest = []).
+Proof.
+  unfold gen_ser_value_ordered. intros Hs H. rewrite Hs, svo_loop_acc in H.
+  destruct (svo' false (nonskipped (vd_fields d)) db) as [[cs rest]|e] eqn:S; [|discriminate].
+  destruct (ser_value_ordered_sound _ _ _ _ S) as (used & p & A1 & A2 & A3 & A4 & A5).
+  cbn [app] in H. exists used, p, rest. destruct (vd_forbid d).
+  - destruct rest as [|[n t] rest]; [|discriminate]. injection H as <-. repeat split; assumption || reflexivity.
+  - injection H as <-. repeat split; try assumption. discriminate.
 Qed.
